@@ -253,7 +253,7 @@ def hashseed_scope(res, pid, rng, tier):
     for r in range(6 if tier == "quick" else 16):
         words = WORDLISTS[(r + res.seed) % len(WORDLISTS)]
         text = "".join(gen_word_line(rng, words, []) for _ in range(12))
-        kw = dict(anon_pwd=(pid == "C13" and r % 2 == 0), anon_ip=(pid == "C13" and r % 3 == 0), salt=SALTS[r % len(SALTS)],
+        kw = dict(anon_pwd=(pid == "C13"), anon_ip=(pid == "C13" and r % 3 == 0), salt=SALTS[r % len(SALTS)],
                   sensitive_words=words, reserved_words=(["Foo" + words[0]] if r % 2 else None))
         if pid == "C13":
             text += "".join(render(h) for h in gen_history(rng, 8))
@@ -519,6 +519,7 @@ def structure_scope(res, pid, rng, tier):
         subset = [bool((r >> k) & 1) for k in range(4)]
         cfg = rand_feature_cfg(rng, subset)
         lines = mixed_text(rng, cfg, 30)
+        keep_tokens = []
         # ordinary configuration vocabulary: nothing sensitive on these lines
         plain = []
         for _ in range(12):
@@ -526,6 +527,11 @@ def structure_scope(res, pid, rng, tier):
             toks = [t for t in toks if not any(t[a:b] in (cfg.asn or []) for a, b in digit_runs(t))]
             if toks:
                 plain.append(rng.choice(["", " ", "   ", "\t"]) + rng.choice([" ", "  ", "\t"]).join(toks) + rng.choice(["", " ", "\t "]) + "\n")
+        if cfg.pwd and not cfg.words and not cfg.asn:
+            for f_ in ("set community {}", "rf-switch snmp-community {}", "key-hash sha256 {}", "snmp-server mib community-map {}:100 context public1"):
+                s_ = re.sub(r"[^A-Za-z]", "x", L.gen_secret(rng, "text"))
+                lines.insert(len(lines) - 1, "description %s-mgmt link %s\n" % (s_, f_.format(s_)))
+                keep_tokens.append(("description %s-mgmt link " % s_))
         if cfg.ip:
             for m in ("255.255.252.000", "000.000.003.255", "0.0.0.255", "255.255.255.0", "255.000.000.000"):
                 plain.append(" ip address-mask %s secondary\n" % m)
@@ -551,6 +557,10 @@ def structure_scope(res, pid, rng, tier):
         if len(outs) != len(ins):
             fails.append({"kind": "number of lines changed", "cfg": cfg.describe(), "lines_in": len(ins), "lines_out": len(outs)})
             continue
+        for kt in keep_tokens:
+            if not any(o.startswith(kt) for o in outs):
+                fails.append({"kind": "a token that is not a sensitive item changed (text equal to the secret elsewhere on the line)",
+                              "cfg": cfg.describe(), "expected_line_start": kt, "outputs": [o for o in outs if "link" in o][:4]})
         for i, (a, b) in enumerate(zip(ins, outs)):
             res.nt(("struct", a[:12]))
             la, ca, ta, _ = ws_split(a)
@@ -596,7 +606,8 @@ def structure_scope(res, pid, rng, tier):
 
 # ------------------------------------------------------------------ C14
 
-HOSTILE = ["\\", "\\g<1>", "\\1", "(", ")", "[", "]", "{", "}", "*", "+", "?", "|", "^", "$", ".", "$1$", "$9$", "$6$", "$1$abcdefghijkl$x",
+HOSTILE = ["$6$rounds=0$abc$def", "$6$rounds=000000001$a$b", "$6$rounds=99999999999$a$b", "$6$rounds=x$a$b", "$6$", "$1$", "$1$a$", "ſea", "ſite", "ſeattle",
+           "ıntentıonet", "İntentionet", "\u212aelvin", "KELVİN", "ZUR\u0131ch", "straſſe", "Straße", "STRASSE", "ǅ", "ﬁ", "ß", "\\", "\\g<1>", "\\1", "(", ")", "[", "]", "{", "}", "*", "+", "?", "|", "^", "$", ".", "$1$", "$9$", "$6$", "$1$abcdefghijkl$x",
            "$1$$a$b", "$1$$$", "$9$abc", "$9$_net9pBcSe8", "$9$QnetF", "fe80:%x", "fe80::%", "1:2:3:4:5:6:7::8", "::", ":::", "1.2.3.4.5", "999.1.1.1",
            "256.256.256.256", "0x1.2.3.4", "1.2.3.4/33", "\x00", "\x1f", "\x85", " ", "é", "\U0001F600", "٣", "Ⅷ", "\t", "  ", '"' * 50, "'" * 40, "[" * 60,
            "a" * 300, "1" * 200, ":" * 70, "." * 70, "%", "%%", "%s", "{}", "{0}", "\\\\", "password", "secret", "key", "community", "snmp-server", "encrypted-password"]
@@ -630,6 +641,8 @@ def total_scope(res, pid, rng, tier):
             continue
         c = rand_feature_cfg(rng, subset)
         c.salt = salts[(r + res.seed) % len(salts)]
+        if c.words is not None:
+            c.words = list(c.words) + ["sea", "site", "kelvin", "intentionet", "Straße"]
         cfgs.append(c)
     objs = []
     for c in cfgs:
